@@ -263,6 +263,62 @@ func (w *yieldWriter) Write(p []byte) (int, error) {
 	return n, nil
 }
 
+// runWriterOverlap keeps many Encode calls that write an extended container (metadata or alpha) between "file
+// assembled" and "file written" at the same time: more goroutines than processors, every writer yields inside Write.
+// Each output must equal the solo output of the same call.
+func runWriterOverlap(seed int64, rounds int, report func(key, msg string), eval func(sig string)) {
+	calls := buildAPICalls(seed)
+	var ext []int
+	for i, c := range calls {
+		if strings.HasPrefix(c.name, "Encode:") && (strings.Contains(c.name, "exif") || strings.Contains(c.name, "icc") || strings.Contains(c.name, "alpha")) {
+			ext = append(ext, i)
+		}
+	}
+	solo := map[int]string{}
+	for _, i := range ext {
+		d, err := calls[i].run()
+		if err != nil {
+			report("solo-call-fails|"+calls[i].name, err.Error())
+			return
+		}
+		solo[i] = d
+	}
+	defer runtime.GOMAXPROCS(runtime.GOMAXPROCS(2))
+	rng := rand.New(rand.NewSource(seed))
+	var wg sync.WaitGroup
+	var mu sync.Mutex
+	for g := 0; g < 6; g++ {
+		order := rng.Perm(len(ext))
+		wg.Add(1)
+		go func(order []int) {
+			defer wg.Done()
+			for r := 0; r < rounds; r++ {
+				for _, k := range order {
+					ci := ext[k]
+					d, err := calls[ci].run()
+					if err != nil || d != solo[ci] {
+						mu.Lock()
+						report("concurrent-result-differs|"+calls[ci].name, fmt.Sprintf("%s wrote a different file (err=%v) while other Encode calls were writing theirs", calls[ci].name, err))
+						mu.Unlock()
+					}
+				}
+			}
+		}(order)
+	}
+	done := make(chan struct{})
+	cpu0 := procCPU(os.Getpid())
+	go func() { wg.Wait(); close(done) }()
+	select {
+	case <-done:
+	case <-time.After(120 * time.Second):
+		if v := hangVerdict(done, cpu0, 120*time.Second); v != "finished" {
+			report("deadlock|writer-overlap", "overlapping Encode calls did not return within 120 s ("+v+")")
+			return
+		}
+	}
+	eval(fmt.Sprintf("writer-overlap x%d", rounds))
+}
+
 // runConcurrentPrograms runs k goroutines x sequences of calls and compares every result with the solo result.
 func runConcurrentPrograms(seed int64, rounds, k, seqLen int, report func(key, msg string), eval func(sig string)) {
 	calls := buildAPICalls(seed)
@@ -331,6 +387,8 @@ func c10RaceChild(args []string) {
 		rounds = 40
 	}
 	runConcurrentPrograms(seed, rounds, 4, 3, func(key, msg string) { fmt.Printf("CHILD-VIOLATION %s: %s\n", key, msg); bad++ }, func(string) {})
+	runWriterOverlap(seed, rounds, func(key, msg string) { fmt.Printf("CHILD-VIOLATION %s: %s\n", key, msg); bad++ }, func(string) {})
+	runtime.GOMAXPROCS(8)
 	verifhook.Start(seed+1, map[string]int{"pool_put": 70, "*": 3})
 	runConcurrentPrograms(seed+1, rounds, 6, 3, func(key, msg string) { fmt.Printf("CHILD-VIOLATION %s: %s\n", key, msg); bad++ }, func(string) {})
 	verifhook.Stop()
@@ -429,6 +487,7 @@ func checkC10(args []string) {
 	runConcurrentPrograms(run.Seed, run.Pick(6, 40), 4, 3,
 		func(key, msg string) { run.Violate(key, msg, key) }, func(sig string) { run.Eval("prog:" + sig) })
 	verifhook.Stop()
+	runWriterOverlap(run.Seed, run.Pick(4, 30), func(key, msg string) { run.Violate(key, msg, key) }, func(sig string) { run.Eval("prog:" + sig) })
 	// the same alphabet with the caller delayed right after every pool Put (hook PoolPut): an object that is still
 	// used after its release is now in other goroutines' hands while that use goes on
 	verifhook.Start(run.Seed+1, map[string]int{"pool_put": 70, "*": 3})
